@@ -531,7 +531,7 @@ def run_attach(case, res):
             if not has:
                 res.count("attach.no_worker_thread")
                 return
-        Sweep(scn, res, "vt", case["name"], gran=case.get("gran", "line")).run(case["cap"], rng, per_site=2)
+        Sweep(scn, res, "vt", case["name"], gran=case.get("gran")).run(case["cap"], rng, per_site=2)
         if harness.need_recycle():
             return
 
@@ -559,7 +559,7 @@ def run_wake(case, res):
         seconds.append("notify")
     for second in seconds:
         Sweep(WakeScenario(case["layers"], case["trigger"], second), res, "vt", case["name"],
-              gran=case.get("gran", "line")).run(case["cap"], rng, per_site=2)
+              gran=case.get("gran")).run(case["cap"], rng, per_site=2)
         if harness.need_recycle():
             return
 
